@@ -387,8 +387,10 @@ func runCrash(path string) {
 			res = guarded(out, func() string { return s.exec(args) })
 			writes := s.rec.log
 			lastWrites = nil
-			if args[0] == "save" || args[0] == "prune" || args[0] == "delfrom" {
-				lastWrites = writes // operations that are ONE logical batch written through the flusher (a rollback by LoadVersionForOverwriting commits twice)
+			if args[0] == "save" || args[0] == "prune" || (args[0] == "delfrom" && !s.cfg.fast) {
+				// operations that are ONE logical batch written through the flusher (a rollback commits
+				// twice when the fast index is enabled: the deletion, then the rebuilt index)
+				lastWrites = writes
 			}
 			s.rec.log = nil
 			if !strings.HasPrefix(res, "err") && res != "panic" {
